@@ -338,7 +338,7 @@ func c06One(l *LabCtx) {
 func init() {
 	RegisterLab(&LabDef{
 		ID:      "C06",
-		Inputs:  map[string]int{"quick": 2500, "thorough": 40000},
+		Inputs:  map[string]int{"quick": 6000, "thorough": 60000},
 		Batches: map[string]int{"quick": 8, "thorough": 16},
 		One:     c06One,
 		Once:    c06Once,
